@@ -43,6 +43,9 @@ AREAS = {
     'utils.py': ('tests/good_test.py tests/persistent_good_test.py tests/pool_test.py', 'C01 C06 C07 C03'),
 }
 
+SKIP = {'tmp_ssh_server', '_spawn_ssh_server', 'ssh_popen', 'main', 'run_server', 'classproperty', 'lazy_type', 'LazyModule', 'make_lazy',
+        'setproctitle', 'setthreadtitle', 'get_hostname', 'is_windows', '__repr__', '_get_restart_args'}
+
 LINE_RULES = [
     ('cmp', r' is not None', ' is None'), ('cmp', r' is None', ' is not None'), ('cmp', r' == ', ' != '), ('cmp', r' != ', ' == '),
     ('cmp', r' <= ', ' < '), ('cmp', r' >= ', ' > '), ('cmp', r' < ', ' <= '), ('cmp', r' > ', ' >= '), ('cmp', r' not in ', ' in '),
@@ -79,6 +82,11 @@ def candidates(path):
         if isinstance(node, (ast.FunctionDef, ast.AsyncFunctionDef)):
             for ln in range(node.body[0].lineno, node.end_lineno + 1):
                 code_lines.add(ln)
+    # outside the properties: ssh launcher, command line front end, lazy-module / classproperty plumbing, worker-type predicates
+    for node in ast.walk(tree):
+        if isinstance(node, (ast.FunctionDef, ast.ClassDef)) and (node.name in SKIP or node.name.startswith(('is_thread', 'is_process', 'is_remote', 'is_persistent'))):
+            for ln in range(node.lineno, node.end_lineno + 1):
+                code_lines.discard(ln)
     doc = set()
     for node in ast.walk(tree):
         if isinstance(node, ast.Expr) and isinstance(node.value, ast.Constant) and isinstance(node.value.value, str):
